@@ -36,9 +36,11 @@ const (
 	OpSpawn     // no choice point
 	OpFlockWait // wait until file lock on Path is free
 	OpYield     // harness-level explicit choice point
+	OpExt       // about to perform a real operation that may block (channel send / receive): choice point
+	OpExtResume // the blocking operation returned after the turn had been taken away: waits for a turn
 )
 
-var kindNames = [...]string{"start", "exit", "lock", "unlock", "wlockreq", "wunlock", "rlock", "runlock", "trylock", "tryrlock", "wgadd", "wgwait", "atomic", "spawn", "flockwait", "yield"}
+var kindNames = [...]string{"start", "exit", "lock", "unlock", "wlockreq", "wunlock", "rlock", "runlock", "trylock", "tryrlock", "wgadd", "wgwait", "atomic", "spawn", "flockwait", "yield", "chanop", "chanresume"}
 
 func (k Kind) String() string { return kindNames[k] }
 
@@ -58,6 +60,8 @@ type Thread struct {
 	pending  Op
 	finished bool
 	tryOK    bool // result of a try-lock, written by the explorer before the grant
+	ext      int  // 0: not in a blocking operation; 1: inside one (possibly parked in the runtime); 2: returned, waiting for a turn
+	revoked  bool // the explorer took the turn away while the thread was parked inside a blocking operation
 	body     func()
 	panicVal any
 	panicStk string
@@ -168,6 +172,51 @@ func TryPoint(k Kind, obj uintptr) (managed, ok bool) {
 	return true, tryResult(t)
 }
 
+// ExtBegin announces a real operation that may park the goroutine in the runtime (a channel operation). The operation
+// itself is performed for real; if it parks, the explorer notices that the thread holds the turn without running, takes
+// the turn away and lets other threads run; ExtEnd then waits for a new turn before the thread continues. A thread that
+// nobody ever wakes up is reported like any other blocked thread (deadlock).
+func ExtBegin(obj uintptr) *Thread {
+	t := current()
+	if t == nil {
+		return nil
+	}
+	park(t, Op{Kind: OpExt, Obj: obj})
+	setExt(t, 1)
+	return t
+}
+
+// ExtEnd is called right after the operation announced by ExtBegin returned.
+func ExtEnd(t *Thread) {
+	if t != nil {
+		extEnd(t)
+	}
+}
+
+//go:norace
+//go:noinline
+func setExt(t *Thread, v int) { t.ext = v }
+
+//go:norace
+//go:noinline
+func extEnd(t *Thread) {
+	if !t.revoked {
+		t.ext = 0
+		return
+	}
+	t.pending = Op{Kind: OpExtResume}
+	t.ext = 2
+	for turn != t.id {
+		runtime.Gosched()
+	}
+	t.revoked = false
+	t.ext = 0
+}
+
+//go:norace
+//go:noinline
+func extState(t *Thread) (ext int, revoked bool) { return t.ext, t.revoked }
+
 // FlockWait is called instead of sleeping when a file lock is held elsewhere.
 func FlockWait(path string) bool {
 	t := current()
@@ -252,9 +301,38 @@ func grant(t *Thread) {
 	turn = t.id
 	for n := 0; turn != explorerTurn; n++ {
 		runtime.Gosched()
+		if t.ext == 1 && n > extSpin {
+			// the thread is inside a blocking operation and has not run although every other goroutine yielded extSpin
+			// times: it is parked in the runtime. Take the turn away; extEnd makes it wait for a new one.
+			t.revoked = true
+			turn = explorerTurn
+			return
+		}
 		if n > spinLimit {
 			stuck(t)
 		}
+	}
+}
+
+// extSpin: yields after which a thread that is inside a blocking operation and has not moved is considered parked
+// (GOMAXPROCS is 1 and asynchronous preemption is off: a runnable goroutine runs within one round of yields).
+const extSpin = 300
+
+// settle gives threads whose blocking operation may just have been completed by another thread the chance to return
+// from it (and to ask for a turn) before the enabled set is computed.
+//
+//go:norace
+//go:noinline
+func settle(ts []*Thread) {
+	parked := false
+	for _, t := range ts {
+		parked = parked || (t.ext == 1 && t.revoked)
+	}
+	if !parked {
+		return
+	}
+	for n := 0; n < extSpin; n++ {
+		runtime.Gosched()
 	}
 }
 
@@ -370,6 +448,9 @@ func (s *shadow) enabled(t *Thread, op Op) bool {
 		}
 		return !FlockHeld(op.Path)
 	}
+	if ext, revoked := extState(t); ext == 1 && revoked {
+		return false // parked inside a blocking operation
+	}
 	return true
 }
 
@@ -483,6 +564,7 @@ func Run(choices []int, bodies []func()) *Result {
 				continue
 			}
 		}
+		settle(threads)
 		var en []int
 		unfinished := 0
 		curEnabled := false
@@ -511,6 +593,10 @@ func Run(choices []int, bodies []func()) *Result {
 			for _, t := range threads {
 				op, fin := readPending(t)
 				if !fin {
+					if ext, revoked := extState(t); ext == 1 && revoked {
+						res.Blocked = append(res.Blocked, fmt.Sprintf("t%d is blocked in a channel operation (obj=%d) that nobody completes", t.id, sh.lab(op.Obj)))
+						continue
+					}
 					res.Blocked = append(res.Blocked, fmt.Sprintf("t%d waits at %s obj=%d %s", t.id, op.Kind, sh.lab(op.Obj), op.Path))
 				}
 			}
